@@ -43,26 +43,49 @@ def child_tmp():
     return d
 
 
-def _child(fn, items, wfd, timeout):
-    """Runs in the forked child: fn(item) for each item, JSON list to the pipe."""
+def _child(fn, items, wfd, timeout, item_timeout=None):
+    """Runs in the forked child: fn(item) for each item, JSON list to the pipe.  Each item has
+    its own wall-clock guard: when it expires the child reports what it has (the wedged item as
+    harness_timeout, the items not yet started as 'requeue') and exits at once — an exception
+    could be swallowed by the bare excepts of the code under test."""
+    out = []
+    n = len(items)
+
+    def flush_and_exit():
+        try:
+            data = json.dumps(out, default=_jsondefault).encode("utf-8")
+        except BaseException:
+            data = json.dumps([{"harness_error": traceback.format_exc()}]).encode("utf-8")
+        try:
+            os.write(wfd, data)
+            os.close(wfd)
+        finally:
+            os._exit(0)
+
+    def on_alarm(signum, frame):
+        out.append({"harness_timeout": True, "where": "".join(traceback.format_stack(frame)[-6:])[-1500:]})
+        while len(out) < n:
+            out.append({"requeue": True})
+        flush_and_exit()
+
     try:
         faulthandler.enable()
         faulthandler.dump_traceback_later(max(5, timeout - 2), exit=False)
         gc.disable()
-        out = []
+        signal.signal(signal.SIGALRM, on_alarm)
         for it in items:
             try:
-                out.append(fn(it))
+                if item_timeout:
+                    signal.setitimer(signal.ITIMER_REAL, item_timeout)
+                r = fn(it)
+                signal.setitimer(signal.ITIMER_REAL, 0)
+                out.append(r)
             except BaseException:
+                signal.setitimer(signal.ITIMER_REAL, 0)
                 out.append({"harness_error": traceback.format_exc(), "item": _brief(it)})
-        data = json.dumps(out, default=_jsondefault).encode("utf-8")
     except BaseException:
-        data = json.dumps([{"harness_error": traceback.format_exc()}]).encode("utf-8")
-    try:
-        with os.fdopen(wfd, "wb") as f:
-            f.write(data)
-    finally:
-        os._exit(0)
+        out.append({"harness_error": traceback.format_exc()})
+    flush_and_exit()
 
 
 def _brief(it):
@@ -89,7 +112,7 @@ def unjson(o):
     return o
 
 
-def run_forked(fn, items, chunk=1, workers=None, timeout=120, wall_budget=None, progress=None):
+def run_forked(fn, items, chunk=1, workers=None, timeout=120, wall_budget=None, progress=None, item_timeout=None):
     """Run fn(item) for every item, `chunk` items per forked child, at most `workers`
     children at a time.  Returns list of results in item order; an item whose child timed
     out or died yields {"harness_timeout": True} / {"harness_error": ...}.
@@ -124,7 +147,7 @@ def run_forked(fn, items, chunk=1, workers=None, timeout=120, wall_budget=None, 
                         os.close(fd)
                     except OSError:
                         pass
-                _child(fn, its, wfd, timeout)
+                _child(fn, its, wfd, timeout, item_timeout)
             os.close(wfd)
             live[rfd] = [pid, si, len(its), bytearray(), boot.real_monotonic() + timeout]
         if not live:
@@ -167,4 +190,10 @@ def run_forked(fn, items, chunk=1, workers=None, timeout=120, wall_budget=None, 
             shutil.rmtree(os.path.join(root, "c%d" % ent[0]), ignore_errors=True)
             for j in range(ent[2]):
                 results[ent[1] + j] = {"harness_timeout": True}
+    again = [i for i, r in enumerate(results) if isinstance(r, dict) and r.get("requeue")]
+    if again:
+        rs = run_forked(fn, [items[i] for i in again], chunk=max(1, chunk // 4), workers=workers, timeout=timeout,
+                        wall_budget=None, progress=None, item_timeout=item_timeout)
+        for i, r in zip(again, rs):
+            results[i] = r
     return results
